@@ -18,6 +18,7 @@ import (
 	"errors"
 	"fmt"
 	"math/rand/v2"
+	"os"
 	"sort"
 	"strings"
 	"sync"
@@ -53,6 +54,7 @@ type cliSpec struct {
 	Protocol   uint32 `json:"protocol"`
 	RBuf, WBuf int
 	MaxReconnectMs int `json:"max_reconnect_ms"`
+	DefaultTimeoutMs int `json:"default_timeout_ms,omitempty"` // the client's default timeout for requests that set none (a lower-priority timeout; a request asks for "infinite" with SetCustomTimeoutMs(0))
 }
 
 type extraSpec struct {
@@ -80,6 +82,9 @@ type callSpec struct {
 	Extra    extraSpec `json:"extra"`
 	RespExtra extraSpec `json:"resp_extra"`
 	StartUs  int64  `json:"start_us,omitempty"`
+	Deaf     bool   `json:"deaf,omitempty"` // gate handler that does not watch its context: it overruns the request's deadline until its gate opens
+	ExplicitInfinite bool `json:"explicit_infinite,omitempty"` // the request sets its timeout explicitly to 0 (infinite): documented to win over every lower-priority default
+	PreYields int   `json:"pre_yields,omitempty"` // scheduling points the caller spends between waking up and calling Do: places the call at a seeded point of whatever else happens at that instant
 	WrapErr  bool   `json:"wrap_err,omitempty"`  // rpcerr handler returns its *rpc.Error wrapped by an outer layer (fmt.Errorf %w), as generated dispatchers do
 	CtxTrace bool   `json:"ctx_trace,omitempty"` // the caller's context carries a tracing context (a sub-request issued from inside a handler)
 	CtxExec  bool   `json:"ctx_exec,omitempty"`  // ... and/or an execution context
@@ -112,6 +117,7 @@ type callsScenario struct {
 	CondRandom bool `json:"cond_random"`
 	YieldUnlock bool `json:"yield_unlock,omitempty"` // unlocks are scheduling points as well
 	HoldPermille int `json:"hold_permille,omitempty"` // ... and a goroutine that just unlocked is sometimes held back for a while
+	IdleTeardown bool `json:"idle_teardown,omitempty"` // directed scenario: an idle connection is torn down while a caller looks it up
 	MaxAdvanceExp int `json:"max_advance_exp"` // clock advances while goroutines are runnable are bounded by 1µs<<this
 	Race       bool `json:"race"`            // run with runtime scheduling (the -race configuration)
 	CryptoSeed uint64 `json:"crypto_seed"`
@@ -120,6 +126,10 @@ type callsScenario struct {
 // legal optional-field bits of RpcInvokeReqExtra that the generator may set (no_result = bit 7 is refused by the client)
 var reqExtraBits = []uint{0, 1, 2, 3, 4, 6, 8, 9, 14, 15, 16, 18, 19, 20, 21, 25, 26, 27, 29, 30}
 var respExtraBits = []uint{0, 1, 2, 3, 4, 5, 6, 14, 27}
+
+// forceDirected is a measuring aid (VERIF_FORCE_DIRECTED=idle): every faulty scenario with two calls takes the named
+// directed branch, so that its hit rate can be measured apart from the mix. Never set by a registered check.
+var forceDirected = os.Getenv("VERIF_FORCE_DIRECTED")
 
 func callsGen(r *rand.Rand, params map[string]any) callsScenario {
 	sc := callsScenario{Kind: "calls"}
@@ -151,6 +161,9 @@ func callsGen(r *rand.Rand, params map[string]any) callsScenario {
 	nc := 1 + r.IntN(3)
 	for i := 0; i < nc; i++ {
 		sc.Clients = append(sc.Clients, cliSpec{WithKey: true, ForceEnc: r.IntN(4) == 0, Protocol: uint32(r.IntN(3)), RBuf: 1 + r.IntN(2048), WBuf: 1 + r.IntN(2048), MaxReconnectMs: 100 << uint(r.IntN(8))})
+		if r.IntN(4) == 0 {
+			sc.Clients[i].DefaultTimeoutMs = 500 + r.IntN(5000)
+		}
 	}
 	ncalls := 1 + r.IntN(16)
 	if sc.Focus == "C39" {
@@ -172,6 +185,7 @@ func callsGen(r *rand.Rand, params map[string]any) callsScenario {
 		case "gate", "longpoll":
 			if r.IntN(5) != 0 {
 				c.GateUs = int64(1+r.IntN(20)) * int64(1+r.IntN(5000))
+				c.Deaf = c.Handler == "gate" && r.IntN(4) == 0
 			}
 		}
 		if faulty || sc.Focus == "C38" {
@@ -191,6 +205,7 @@ func callsGen(r *rand.Rand, params map[string]any) callsScenario {
 				}
 			}
 		}
+		c.ExplicitInfinite = c.CustomTimeoutMs == 0 && r.IntN(5) == 0
 		c.FailFast = faulty && r.IntN(6) == 0
 		c.Callback = r.IntN(4) == 0
 		c.TL2 = r.IntN(3) == 0
@@ -243,7 +258,7 @@ func callsGen(r *rand.Rand, params map[string]any) callsScenario {
 			}
 		}
 	}
-	if faulty && len(sc.Calls) >= 2 && r.IntN(5) == 0 {
+	if faulty && len(sc.Calls) >= 2 && (r.IntN(5) == 0 || forceDirected == "idle") {
 		// directed: an established, idle connection is reset at the moment the next call is issued on it (the
 		// client removes a dead idle connection while a caller is looking it up)
 		first, later := &sc.Calls[0], &sc.Calls[len(sc.Calls)-1]
@@ -254,7 +269,17 @@ func callsGen(r *rand.Rand, params map[string]any) callsScenario {
 		if r.IntN(2) == 0 {
 			at = max(0, later.StartUs-int64(r.IntN(400))+int64(r.IntN(100)))
 		}
+		if r.IntN(2) == 0 {
+			// the caller arrives at a seeded point of the teardown (a goroutine that only yields spends no simulated time)
+			later.PreYields = r.IntN(160)
+		}
+		if r.IntN(2) == 0 {
+			// nothing else on that client: the connection is certainly idle and the only one there is
+			later.CancelAt, later.CancelOnReply = 0, 0
+			sc.Calls = []callSpec{*first, *later}
+		}
 		sc.Faults = append(sc.Faults, faultSpec{Kind: "reset", Target: r.IntN(2), AtUs: at})
+		sc.IdleTeardown = true
 	}
 	if faulty && len(sc.Calls) >= 2 && r.IntN(8) == 0 {
 		// directed: the server goes away early, later calls queue on a connection that is waiting to reconnect,
@@ -304,6 +329,13 @@ func callsGen(r *rand.Rand, params map[string]any) callsScenario {
 	sc.YieldUnlock = r.IntN(2) == 0
 	if sc.YieldUnlock && r.IntN(2) == 0 {
 		sc.HoldPermille = []int{2, 5, 20}[r.IntN(3)]
+	}
+	if sc.IdleTeardown && r.IntN(4) != 0 {
+		// the teardown takes tens of steps: callers that have just released a lock are held back more often
+		sc.YieldUnlock, sc.HoldPermille = true, []int{60, 150, 300}[r.IntN(3)]
+		if r.IntN(2) == 0 {
+			sc.Strategy = 0
+		}
 	}
 	sc.CryptoSeed = r.Uint64()
 	sc.MaxAdvanceExp = 10 // ~1 ms: a fault-free run must not starve the process into its own timeouts
@@ -566,6 +598,7 @@ type callState struct {
 	seenExtra  []byte
 	seenActor  int64
 	seenTL2    bool
+	defaultTimeoutMs int32 // the client's default timeout if it applies to this call (no own timeout, not explicitly infinite)
 	sentExtraFlags uint32 // request flags as the client sent them (after the client's documented normalisation)
 	wantReqExtra []byte
 	hadDeadline bool
@@ -755,7 +788,11 @@ func (r *callsRun) handler(si int) HandlerFunc {
 			r.mu.Unlock()
 			sel := vrt.NewSel("harness.gate")
 			vrt.SelRecv(sel, cs.gate)
-			vrt.SelRecv(sel, ctx.Done())
+			if !cs.spec.Deaf {
+				vrt.SelRecv(sel, ctx.Done())
+			} else {
+				r.sim.Count("probe.handler_ignores_its_context")
+			}
 			if sel.Wait(false) == 1 {
 				r.sim.Count("probe.gated_handler_ctx_done")
 				return ctx.Err()
@@ -983,6 +1020,21 @@ func otherToken(text string, own uint64) (string, bool) {
 }
 
 // judge applies the per-call oracle (C38: own response; C40: extras and error codes unchanged).
+// checkRespExtra (C40): response extra = what the handler set, masked by the request's flag bits (documented). The
+// extras travel with error responses exactly as with successes: a handler that fills hctx.ResponseExtra and then
+// returns an error has its extras delivered next to the error.
+func (r *callsRun) checkRespExtra(cs *callState, what string) {
+	want := mkRespExtra(cs.spec.RespExtra)
+	want.Flags &= cs.sentExtraFlags
+	wb := (&want).WriteTL1(nil)
+	var wantNorm ResponseExtra
+	_, _ = wantNorm.ReadTL1(wb)
+	if got, w := hex.EncodeToString(cs.respExtra), hex.EncodeToString(wantNorm.WriteTL1(nil)); got != w {
+		r.fail("C40/response-extra-changed", fmt.Sprintf("call %d (%s): response extra seen by the client %s, handler set (masked by request flags %#x) %s", cs.idx, what, got, cs.sentExtraFlags, w))
+	}
+	r.sim.Count("probe.c40_response_extras_compared_" + strings.ReplaceAll(what, " ", "_"))
+}
+
 func (r *callsRun) judge(cs *callState) {
 	sp := cs.spec
 	err := cs.err
@@ -1035,15 +1087,7 @@ func (r *callsRun) judge(cs *callState) {
 			return
 		}
 		r.sim.Count("probe.call_success")
-		// C40: response extra = what the handler set, masked by the request's flag bits (documented)
-		want := mkRespExtra(sp.RespExtra)
-		want.Flags &= cs.sentExtraFlags
-		wb := (&want).WriteTL1(nil)
-		var wantNorm ResponseExtra
-		_, _ = wantNorm.ReadTL1(wb)
-		if got, w := hex.EncodeToString(cs.respExtra), hex.EncodeToString(wantNorm.WriteTL1(nil)); got != w {
-			r.fail("C40/response-extra-changed", fmt.Sprintf("call %d: response extra seen by the client %s, handler set (masked by request flags %#x) %s", cs.idx, got, cs.sentExtraFlags, w))
-		}
+		r.checkRespExtra(cs, "a success")
 	case errors.As(err, &rpcErr):
 		if tk, foreign := otherToken(rpcErr.Description, cs.token); foreign {
 			r.fail("C38/foreign-response", fmt.Sprintf("call %d (token %x) got an RPC error produced for token %s: %v", cs.idx, cs.token, tk, rpcErr))
@@ -1060,11 +1104,13 @@ func (r *callsRun) judge(cs *callState) {
 				r.fail("C40/error-changed", fmt.Sprintf("call %d: handler returned code %d %q, client saw code %d %q", cs.idx, sp.ErrCode, fmt.Sprintf("err-token-%016x", cs.token), rpcErr.Code, rpcErr.Description))
 			}
 			r.sim.Count("probe.call_rpc_error")
+			r.checkRespExtra(cs, "an rpc error")
 		case own && sp.Handler == "goerr":
 			if rpcErr.Code != tlerrorcodes.Unknown || rpcErr.Description != fmt.Sprintf("plain-token-%016x", cs.token) {
 				r.fail("C40/error-changed", fmt.Sprintf("call %d: plain handler error arrived as code %d %q", cs.idx, rpcErr.Code, rpcErr.Description))
 			}
 			r.sim.Count("probe.call_plain_error")
+			r.checkRespExtra(cs, "a plain error")
 		case own && sp.Handler == "panic":
 			if rpcErr.Code != tlerrorcodes.Internal {
 				r.fail("C40/error-changed", fmt.Sprintf("call %d: handler panic arrived as code %d", cs.idx, rpcErr.Code))
@@ -1113,8 +1159,20 @@ func (r *callsRun) judge(cs *callState) {
 	}
 	// C40: request side (only if the request reached a handler)
 	if cs.handled > 0 {
-		if got, want := hex.EncodeToString(cs.seenExtra), hex.EncodeToString(cs.wantReqExtra); got != want && !cs.hadDeadline {
-			r.fail("C40/request-extra-changed", fmt.Sprintf("call %d: handler saw request extra %s, client set %s", cs.idx, got, want))
+		if !cs.hadDeadline {
+			// "timeout 0" and "no timeout" both mean infinite: compared as equal; a positive timeout is a difference
+			var a, b RequestExtra
+			_, _ = a.ReadTL1(cs.seenExtra)
+			_, _ = b.ReadTL1(cs.wantReqExtra)
+			if a.CustomTimeoutMs == 0 {
+				a.ClearCustomTimeoutMs()
+			}
+			if b.CustomTimeoutMs == 0 {
+				b.ClearCustomTimeoutMs()
+			}
+			if got, want := hex.EncodeToString(a.WriteTL1(nil)), hex.EncodeToString(b.WriteTL1(nil)); got != want {
+				r.fail("C40/request-extra-changed", fmt.Sprintf("call %d: handler saw request extra %s, client set %s (explicitly infinite: %v)", cs.idx, got, want, sp.ExplicitInfinite))
+			}
 		}
 		if cs.hadDeadline {
 			// the client derives CustomTimeoutMs from the deadline: compare everything else
@@ -1131,6 +1189,12 @@ func (r *callsRun) judge(cs *callState) {
 			}
 			if sp.DeadlineUs > 0 && int64(a.CustomTimeoutMs) > (sp.DeadlineUs+999)/1000 {
 				r.fail("C40/request-extra-changed", fmt.Sprintf("call %d: the caller's deadline was %d µs away at most, the handler saw CustomTimeoutMs %d (longer)", cs.idx, sp.DeadlineUs, a.CustomTimeoutMs))
+			}
+			if cs.defaultTimeoutMs > 0 && a.CustomTimeoutMs > cs.defaultTimeoutMs {
+				r.fail("C40/request-extra-changed", fmt.Sprintf("call %d: the client's default timeout is %d ms, the handler saw CustomTimeoutMs %d (longer)", cs.idx, cs.defaultTimeoutMs, a.CustomTimeoutMs))
+			}
+			if cs.defaultTimeoutMs > 0 {
+				r.sim.Count("probe.c40_default_timeout_applied")
 			}
 			if sp.CustomTimeoutMs > 0 && sp.DeadlineUs > 0 {
 				r.sim.Count("probe.c40_custom_timeout_and_deadline_both_set")
@@ -1154,6 +1218,9 @@ func (r *callsRun) doCall(cs *callState) {
 		time.Sleep(time.Duration(sp.StartUs) * time.Microsecond)
 		vrt.Yield("harness.call.start")
 	}
+	for i := 0; i < sp.PreYields; i++ {
+		vrt.Yield("harness.call.pre")
+	}
 	cl := r.clients[sp.Client]
 	req := cl.GetRequest()
 	req.Body = append(req.Body, callBody(cs)...)
@@ -1163,6 +1230,13 @@ func (r *callsRun) doCall(cs *callState) {
 	req.FailIfNoConnection = sp.FailFast
 	if sp.CustomTimeoutMs > 0 {
 		req.Extra.SetCustomTimeoutMs(sp.CustomTimeoutMs)
+	} else if sp.ExplicitInfinite {
+		req.Extra.SetCustomTimeoutMs(0)
+		r.sim.Count("probe.c40_explicit_infinite_timeout")
+	}
+	defTO := int32(0)
+	if !sp.ExplicitInfinite && sp.CustomTimeoutMs == 0 {
+		defTO = int32(r.sc.Clients[sp.Client].DefaultTimeoutMs) // applies only to requests that set no timeout of their own
 	}
 	// documented client normalisation: for requests with an actor id, an execution / tracing context carried
 	// by the caller's context fills in the corresponding extra field if (and only if) the request did not set it
@@ -1188,7 +1262,8 @@ func (r *callsRun) doCall(cs *callState) {
 	r.mu.Lock()
 	cs.wantReqExtra = want.WriteTL1(nil)
 	cs.sentExtraFlags = want.Flags
-	cs.hadDeadline = sp.DeadlineUs > 0 || sp.CustomTimeoutMs > 0
+	cs.hadDeadline = sp.DeadlineUs > 0 || sp.CustomTimeoutMs > 0 || defTO > 0
+	cs.defaultTimeoutMs = defTO
 	if sp.DeadlineUs > 0 {
 		cs.sentExtraFlags |= 1 << 23
 	}
@@ -1452,7 +1527,13 @@ func (r *callsRun) body(s simI) {
 		if cp.ForceEnc {
 			opts = append(opts, ClientWithForceEncryption(true))
 		}
-		clients = append(clients, NewClient(opts...))
+		cl := NewClient(opts...)
+		if cp.DefaultTimeoutMs > 0 {
+			// the public option is commented out in the package "to prevent abuse"; the field and the exported
+			// UpdateExtraTimeout it feeds are live code
+			UnwrapOK(cl).opts.DefaultTimeout = time.Duration(cp.DefaultTimeoutMs) * time.Millisecond
+		}
+		clients = append(clients, cl)
 	}
 	r.mu.Lock()
 	r.servers, r.clients = servers, clients
